@@ -116,6 +116,11 @@ def gen_universe(rng, n=None, heavy=0.08):
         if rng.random() < 0.6:
             k['foreign_sub'] = {'curve': rng.choice(['cv25519', 'cv25519', 'ecdh_p256', 'ecdh_p384', 'ecdh_p521', 'elg2048']),
                                 'kdf': rng.choice([[8, 7], [10, 9], [9, 8], [10, 7], [8, 9], [9, 9]])}
+    for name in sorted(keys):
+        # a key whose signing subkeys are bound with the Certify flag as well (legal, unusual); a primary key can always
+        # certify, so key management stays the primary's business
+        if rng.random() < 0.25 and 'foreign_uid' not in keys[name]:
+            keys[name]['cert_sub'] = True
     return keys
 
 
@@ -318,6 +323,10 @@ class KeyHistory(object):
             # a key whose secrets live on a card cannot act; what it is put through here is copying, deriving and hops
             return 'cardstub'
         fn = getattr(self, '_op_' + op)
+        if self.cfg.get(name, {}).get('cert_sub') and st.get('usage'):
+            if op in ('add_subkey', 'rebind_subkey') and 'S' in st['usage']:
+                st = dict(st, usage='C' + st['usage'])
+                self.ctx.probe('subkey_bound_with_certify_flag')
         try:
             return fn(st, name, self.priv[name], self.model[name]) or 'ok'
         except (seams.SimCancelled, Violation, HarnessError):
@@ -476,7 +485,7 @@ class KeyHistory(object):
         if not world.can_sign(ms.alg):
             usage = ''.join(c for c in usage if c in 'ET') or 'E'
         else:
-            usage = ''.join(c for c in usage if c in 'SA') or 'S'
+            usage = ''.join(c for c in usage if c in 'CSA') or 'S'
         kw = {}
         if st.get('sig_expires_s'):
             kw['expires'] = datetime.timedelta(seconds=st['sig_expires_s'])
@@ -619,8 +628,10 @@ def perturb_key_bytes(data, kinds, ctx, armor=False, label='PUBLIC KEY BLOCK', o
     changed = False
     for k in kinds:
         if k == 'trust':
-            # two-octet bodies, as GnuPG keyring files have them
-            out = b''.join(p.raw + encode_packet(12, b'\x00\x05' if i % 2 else b'\x03\x00') for i, p in enumerate(split_packets(out)))
+            # two-octet bodies, as GnuPG keyring files have them; every third packet is followed by two of them (owner trust and
+            # validity records side by side)
+            out = b''.join(p.raw + encode_packet(12, b'\x00\x05' if i % 2 else b'\x03\x00') + (encode_packet(12, b'\x04\x00') if i % 3 == 1 else b'')
+                           for i, p in enumerate(split_packets(out)))
             ctx.perturb('trust_packets')
             changed = True
         elif k == 'reframe_old':
